@@ -12,7 +12,7 @@ from egsim import engine
 
 def _fails(prop, cfg, ops, kind, counter):
     counter[0] += 1
-    res = engine.run_replay(prop, cfg, ops)
+    res = engine.run_replay(prop, cfg, ops, RUN_SEED[0])
     v = res.violation
     if v is not None and v["kind"] == kind:
         # keep only what was executed up to and including the failing step
@@ -60,6 +60,8 @@ def _simplify_args(prop, cfg, ops, kind, counter, max_tests):
     return ops
 
 
+RUN_SEED = [0]
+
 SIMPLER_CLASS = {
     "SubDirected": "DirectedEdge",
     "SubUnDirected": "UnDirectedEdge",
@@ -72,6 +74,7 @@ SIMPLER_CLASS = {
     "FalsyUniverse": "Universe",
     "RenamedDirected": "DirectedEdge",
     "FalsyClassEdge": "UnDirectedEdge",
+    "FrozenEdge": "DirectedEdge",
 }
 
 
@@ -108,8 +111,11 @@ def _arg_candidates(op):
     return out
 
 
-def shrink(prop, cfg, ops, kind, max_tests=4000):
+def shrink(prop, cfg, ops, kind, max_tests=4000, run_seed=0):
     """-> (minimised ops, number of replays used)"""
+    # the seed of the failing run: it seeds the uid stream and the global
+    # random state, which a history may read (randgraph without a reseed)
+    RUN_SEED[0] = run_seed
     counter = [0]
     res = _fails(prop, cfg, ops, kind, counter)
     if res is None:
